@@ -36,7 +36,8 @@ RULE = {
         "Hypothesis-generated scripts: period from {0.2,1,1.5,7,60 s}; align_to None / past grid point / past point off the "
         "period grid / future instant / epoch; creation instant = grid point + {0, 1 us, period/2, period - 1 us} + whole "
         "periods; 1-4 series, each added before the start or at a generated virtual time while running; per-tick sink latency "
-        "from {0, 0.3, 1, 2.5 periods} on the slow sinks; the first resample() awaited {0, 0.5, 3.7} periods late; the driver "
+        "from {0, 0.3, 1, 2.5 periods} on the slow sinks; each series is silent or receives a sample every 0.5 / 1 / 2 / 3 periods "
+        "(initial buffer length 1-16, so the input-period estimate and the up-sampling paths are reached); the first resample() awaited {0, 0.5, 3.7} periods late; the driver "
         "restarts resample() on any exception, as the resampling actor does; a quarter of the cases run the same script "
         "through a real ComponentMetricsResamplingActor (series = subscription requests, sinks = registry channels), and some through a MovingWindow with its own resampler "
         "(continuous raw input; the stored slots must be aligned, start within two periods and be gap-free). Oracle on the samples handed to every sink: "
@@ -50,7 +51,7 @@ ASSUMPTIONS = [
     "virtual time: asyncio timers, the frequenz-channels Timer and datetime.now() share one clock owned by the harness",
     "resample() raising while a series is added during a slow gather is tolerated; the driver restarts it (actor behaviour)",
 ]
-MIN_LABELS = {"C07": {"creation_off_grid": 0.4, "latency_ge_period": 0.3, "series_added_while_running": 0.3, "late_first_call": 0.25, "through_resampling_actor": 0.1, "through_moving_window": 0.05}}
+MIN_LABELS = {"C07": {"creation_off_grid": 0.4, "latency_ge_period": 0.3, "series_added_while_running": 0.3, "late_first_call": 0.25, "through_resampling_actor": 0.1, "through_moving_window": 0.05, "upsampled_series": 0.1}}
 
 US = timedelta(microseconds=1)
 EPOCH = datetime(1970, 1, 1, tzinfo=timezone.utc)
@@ -75,6 +76,9 @@ def strategy(tier: str, pid: str = "C07") -> st.SearchStrategy[Any]:
         "init_delay": st.sampled_from([0.0, 0.0, 0.5, 3.7]),
         "horizon": horizon,
         "driver": st.sampled_from(["direct", "direct", "direct", "actor", "window"]),
+        # input data per series: None = silent source, else a sample every m periods (m > 1: up-sampling)
+        "data": st.lists(st.sampled_from([None, None, 0.5, 1.0, 2.0, 3.0]), min_size=4, max_size=4),
+        "buffer_len": st.sampled_from([1, 2, 4, 16]),
     })
 
 
@@ -109,8 +113,18 @@ def run_case(case: Any, pid: str) -> Verdict:
             raise AssertionError(f"harness clock {world.now()} != creation {creation}")
         t_create = loop.time()
         info["t_create"] = t_create
-        resampler = Resampler(ResamplerConfig(resampling_period=period, align_to=align))
+        resampler = Resampler(ResamplerConfig(resampling_period=period, align_to=align,
+                                               initial_buffer_len=case.get("buffer_len", 16)))
         chans = []
+        feeders: list[asyncio.Task[None]] = []
+
+        async def feed(ch: Any, every: float) -> None:
+            tx = ch.new_sender()
+            n = 0
+            while True:
+                n += 1
+                await tx.send(Sample(world.now(), Quantity(float(n))))
+                await asyncio.sleep(every * psec)
 
         def add(i: int) -> None:
             slow = series[i]["slow"]
@@ -124,8 +138,14 @@ def run_case(case: Any, pid: str) -> Verdict:
 
             ch: Any = Broadcast(name=f"s{i}")
             chans.append(ch)
-            resampler.add_timeseries(f"s{i}", ch.new_receiver(), sink)
+            resampler.add_timeseries(f"s{i}", ch.new_receiver(limit=10000), sink)
             added_at[i] = loop.time()
+            every = case.get("data", [None] * 4)[i % 4]
+            if every is not None:
+                feeders.append(asyncio.create_task(feed(ch, every)))
+                info["fed"] = True
+                if every > 1:
+                    info["upsampling"] = True
 
         for i, s in enumerate(series):
             if s["add_at"] is None:
@@ -155,6 +175,8 @@ def run_case(case: Any, pid: str) -> Verdict:
         if end > loop.time():
             await asyncio.sleep(end - loop.time())
         task.cancel()
+        for feeder in feeders:
+            feeder.cancel()
         try:
             await task
         except asyncio.CancelledError:
@@ -321,6 +343,10 @@ def run_case(case: Any, pid: str) -> Verdict:
         v.labels.add("late_first_call")
     if excs:
         v.labels.add("resample_raised_and_was_restarted")
+    if info.get("fed"):
+        v.labels.add("series_with_input_data")
+    if info.get("upsampling"):
+        v.labels.add("upsampled_series")
     v.labels.add("align_" + case["align"])
     v.nontrivial = bool(v.labels & {"creation_off_grid", "latency_ge_period", "series_added_while_running"})
     return v
